@@ -104,6 +104,13 @@ def strip_mutations(inp):
     return In(inp.name + "_nomut", inp.ts.delete_sites(np.arange(inp.ts.num_sites)), inp.mu, inp.Ne, inp.source + "/nomut")
 
 
+def strip_mutations_keep_sites(inp):
+    """all mutations removed but the (now monomorphic) sites kept -- added after seeded change C35-a"""
+    t = inp.ts.dump_tables()
+    t.mutations.clear()
+    return In(inp.name + "_nomut_sites", t.tree_sequence(), inp.mu, inp.Ne, inp.source + "/nomut-sites")
+
+
 def tsgen_inputs(ctx, insts):
     out, seen = [], set()
     for inst in insts:
@@ -315,6 +322,7 @@ def run(ctx):
     corpus = corpus_inputs(seed, q)
     sparse = sparse_inputs(seed, 12 if q else 150)
     nomut = [strip_mutations(i) for i in corpus[:2 if q else 6]]
+    nomut += [strip_mutations_keep_sites(i) for i in corpus[:2 if q else 6]]
     pool = gen + corpus + sparse + nomut
     by_muts = {"some": [i for i in pool if i.muts == "some"], "none": [i for i in pool if i.muts == "none"]}
     ctx.count("inputs_tsgen", len(gen))
